@@ -217,7 +217,11 @@ def history_case(ctx, case):
         ctx.label('negotiated_entry')
     world = vnet.World(servers=scripts, plan=plan)
     seen = []
-    with vnet.installed(world):
+    if case.get('clock'):
+        # no bound on the time between two packets of a history: the
+        # harness-owned clocks leap an hour at every reading
+        ctx.label('history_clock_' + case['clock'])
+    with vnet.installed(world), vnet.wall_clock(case.get('clock')):
         conn, o = servers.make_connection(world, allowed_versions=allowed)
         from minecraft.networking.packets import Packet
 
@@ -861,6 +865,7 @@ def case_strategy(versions, maxlen):
                 st.lists(item_strategy(v), min_size=1, max_size=30),
                 st.lists(item_strategy(v), min_size=45, max_size=maxlen)),
             'delivery': st.sampled_from(['all', 'bursts', 'reactive']),
+            'clock': st.sampled_from([None, None, 'leaps', 'steps_back']),
             'burst': st.integers(1, 60),
             'end': st.sampled_from(['disconnect', 'disconnect',
                                     'disconnect', 'eof']),
@@ -896,6 +901,7 @@ def t_versions(ctx, versions):
                 case = {'version': v, 'compress': comp, 'history': hist,
                         'delivery': delivery, 'burst': 5,
                         'negotiate': bool(k % 2),
+                        'clock': [None, 'leaps', None, 'steps_back'][k % 4],
                         'end': 'disconnect', 'plan': 'whole',
                         'end_msg': END_MSGS[(k + v) % len(END_MSGS)]}
                 k += 1
